@@ -289,3 +289,59 @@ func ruleSeqExit(p *Prog, r *Report) {
 		}
 	}
 }
+
+// ruleXSrc: the look-ahead buffer of the XMP tokenizer reads the caller's stream itself. In xmp.newXMPReader the
+// source of every bufio.NewReader(Size) is the function's own reader parameter — not a length-limited or otherwise
+// wrapped view of it (a limit counts from the start of the stream: the bytes skipped before the root element and
+// unknown properties use it up, and supported properties behind it are silently lost).
+func ruleXSrc(p *Prog, r *Report) {
+	f := p.Func("xmp", "", "newXMPReader")
+	key := "xmp.newXMPReader | the tokenizer reads the caller's stream itself"
+	if f == nil || len(f.Params) < 1 {
+		r.Undecided("XSRC", key, "-", "unresolved anchor")
+		return
+	}
+	at := p.posStr(f.Pos())
+	n := 0
+	bad := ""
+	eachCall(f, func(site ssa.CallInstruction) {
+		c := site.Common()
+		if !isCallTo(c, "bufio.NewReaderSize", "bufio.NewReader") {
+			return
+		}
+		n++
+		src := c.Args[0]
+		for i := 0; i < 4; i++ {
+			switch x := src.(type) {
+			case *ssa.MakeInterface:
+				src = x.X
+				continue
+			case *ssa.ChangeInterface:
+				src = x.X
+				continue
+			}
+			break
+		}
+		if src != ssa.Value(f.Params[0]) {
+			bad = "the buffer is filled from " + shortVal(c.Args[0]) + " (" + p.posStr(instrPos(site)) + "), not from the reader the caller passed: whatever that wrapper withholds — bytes beyond a limit counted from the start of the stream — is lost to the parser without an error"
+		}
+	})
+	// no length-limited readers anywhere in the package
+	if sp := p.SSAPkg("xmp"); sp != nil && bad == "" {
+		for _, g := range pkgFns(sp, p) {
+			eachCall(g, func(site ssa.CallInstruction) {
+				if isCallTo(site.Common(), "io.LimitReader", "io.NewSectionReader") {
+					bad = "io.LimitReader/SectionReader in " + fnName(g) + " (" + p.posStr(instrPos(site)) + "): the packet has no declared length inside this package"
+				}
+			})
+		}
+	}
+	switch {
+	case bad != "":
+		r.Bad("XSRC", key, at, bad)
+	case n == 0:
+		r.Undecided("XSRC", key, at, "no bufio.NewReader(Size) found")
+	default:
+		r.OK("XSRC", key, at, fmt.Sprintf("%d buffer(s), each filled from the parameter r", n))
+	}
+}
